@@ -205,7 +205,7 @@ def one(b, opts):
     except BaseException as e:
         res['spec'] = 'EXC ' + type(e).__name__
     r = pipeline.run_cli(pipeline.plain_text(toks), ['-storage'] if opts.get('storage') else [])
-    res['out'] = r['output']; res['exc'] = r['exc']
+    res['out'] = r['output']; res['exc'] = r['exc']; res['csv'] = r.get('csv')
     return res
 
 job = json.loads(sys.stdin.read())
